@@ -300,7 +300,8 @@ PROPS = {
                        "preserved by every operation; resolve/ensure map an alias to the canonical it was declared for and a canonical to itself, never re-point or remove a known name (so a later use of an alias "
                        "means the canonical in every later state); insert_canonical on an alias is AlreadyAlias and insert_alias on a canonical is AlreadyCanonical with the table unchanged; every commodity name "
                        "in an evaluated literal goes through ensure/resolve; add_transaction books every posting on the account its written name resolves to (new postcondition: stored posting account == resolved(written name), for every spelling); ProcessAccumulator::process rejects an `account`/`commodity` declaration whose name is already an alias and registers every accepted "
-                       "declaration without changing the meaning of names known before (against the store interface of ctx_stub.rs).  The FromInterned impls of Commodity and Account are verified against the trait contract.",
+                       "declaration without changing the meaning of names known before (against the store interface of ctx_stub.rs); every `alias` line of an accepted declaration that introduces a new name makes that name resolve to the declared account / commodity - also when the canonical name was used or declared earlier "
+                       "(postconditions process.account_alias_means_the_declared_account / .commodity_alias_means_the_declared_commodity; the frame clauses of the store interface they rest on - no other name changes its status - are proved on InternStore::insert_canonical / insert_alias in group intern); ReportContext::{account, commodity} resolve through the store.  The FromInterned impls of Commodity and Account are verified against the trait contract.",
         "units_doc": ["core/src/report/intern.rs: InternStore::{get,resolve,ensure,insert_canonical,insert_alias,insert_canonical_impl,insert_alias_impl,as_type}, StoredValue::as_canonical, InternedStr::as_str",
                       "core/src/report/commodity.rs, context.rs: impl FromInterned for Commodity / Account", "core/src/report/eval/evaluated.rs: from_expr_amount(_mut)",
                       "core/src/report/book_keeping.rs: ProcessAccumulator::process (declaration wiring)"],
@@ -416,7 +417,7 @@ PROPS = {
                        "of posting and metadata lines are exactly four spaces.  Group `alignment` (structural induction over every expression tree): the three fmt_with_alignment impls (ValueExpr, Expr, Amount) append exactly "
                        "the expression's text to the sink - `(`..`)`, the operator between single spaces, the number, one space, the commodity - and return, as Complete(k), the byte offset k of the END OF THE NUMERIC PART "
                        "of the first amount that carries a commodity, or Partial(length of the whole text) when no amount carries one; that offset lies inside the printed text (lemma); the Display impls of UnaryOp / BinaryOp "
-                       "print exactly one ASCII character (the alignment arithmetic counts 1 and 3 for them); WithContext::pass_context keeps the context.",
+                       "print exactly one ASCII character (the alignment arithmetic counts 1 and 3 for them); WithContext::pass_context keeps the context; the blanket `impl Display for WithContext<T> where Self: DisplayWithAlignment` prints exactly the text fmt_with_alignment appends.",
         "units_doc": ["core/src/syntax/display.rs: get_column, Alignment::{absolute,plus}, call-site slices get_column(48, ..) / get_column(50 + trailing, ..), format-string literal slices",
                       "core/src/syntax/display.rs: DisplayWithAlignment for WithContext<ValueExpr> / <Expr> / <Amount> (whole functions), WithContext::pass_context", "core/src/syntax/expr.rs: Display for UnaryOp, Display for BinaryOp"],
         "assumptions": ["ASSUMED model of core::fmt (vx/prelude/fmt_model.rs): write!(f, ..) sends the pieces of its format string to the sink in order and stops at the first error (rule R50); `{}` appends the argument's Display text; x.to_string() is that text; "
